@@ -33,6 +33,7 @@ class Run:
         import pycomm3 as p
         self.p = p
         self.rng, self.kind, self.history, self.policy_name, self.fault = rng, driver_kind, history, policy, fault
+        self.init_tags = init_tags
         self.b = Bench(rng)
         self.findings = []    # (key, what)
         self.events = []      # per op: (op, status, detail)
@@ -193,6 +194,11 @@ class Run:
             if st != "ok" or not out:
                 self.findings.append(("reopen-fails", f"open() after close() failed against a healthy target: {out!r:.160} [{ctxt}]"))
             else:
+                if self.kind in ("logix", "micro") and self.init_tags and not self.drv.tags:
+                    # "a later open works again": with init_tags the open() of a healthy controller uploads its tag list - whatever
+                    # an earlier, failed open() left behind in the driver object
+                    self.findings.append(("reopen-does-not-upload-tag-list", f"open() after close() returned {out!r} against a healthy controller but the driver holds no tag definitions "
+                                                                             f"(the project has {len(self.prj.user_tags())} tags) [{ctxt}]"))
                 st, out = self.do("gm_conn" if self.kind == "cip" or (self.kind in ("logix", "micro") and not self.drv.tags) else "read" if self.kind in ("logix", "micro") else "slc_read")
                 good = st == "ok" and (bool(out) if not isinstance(out, list) else all(out))
                 if not good:
